@@ -51,7 +51,7 @@ def violations(z):
         if z.nchan % 2 == 1 and z.freq_align != "center":
             out.append("odd nchan without 'center' alignment")
     if isinstance(z, pb.BasebandSignal):
-        if not bool(u.isclose(z.chan_bw, z.sample_rate, rtol=1e-12)):
+        if not bool(z.chan_bw == z.sample_rate):          # "equal": the same number, not merely close
             out.append(f"baseband chan_bw {z.chan_bw} != sample_rate {z.sample_rate}")
     if isinstance(z, pb.DualPolarizationSignal) and z.pol_type not in ("linear", "circular"):
         out.append(f"pol_type {z.pol_type!r}")
